@@ -1,4 +1,4 @@
-import Eru.Rpc.RetryProofs
+import Eru.Rpc.RetryBudget
 /-
 C36 — client watch streams retry transparently.
 
@@ -11,16 +11,30 @@ open Eru.Rpc.Retry
 
 variable {μ ρ : Type}
 
+/-- the transport assumption under which the cancellation theorems are stated (Eru/Rpc/Retry.lean):
+a stream opened under an already cancelled context never reaches the server handler.  It is the
+`reach` argument of `runStream`/`start`; everything below that mentions cancellation fixes it to `false`. -/
+abbrev assumedReach : Bool := false
+
+theorem start_reach (script : List (Stream μ)) (req : ρ) : (start assumedReach script req).reach = false := by
+  cases script <;> rfl
+
+theorem start_rest (script : List (Stream μ)) (req : ρ) : (start assumedReach script req).rest = script.tail := by
+  cases script <;> rfl
+
+theorem start_reqs (script : List (Stream μ)) (req : ρ) : (start assumedReach script req).reqs = [req] := by
+  cases script <;> rfl
+
 /-- `delivers_concat`: what the caller received, in order, is exactly the concatenation of the
 messages of the streams the server served (no loss, no duplicate, no reordering across re-opens);
 `n` = number of requests the server saw. -/
 theorem delivers_concat (watch : Bool) (max : Nat) (script : List (Stream μ)) (req : ρ) :
-    let r := runStream watch max none script req
+    let r := runStream assumedReach watch max none false script req
     r.delivered = (script.take r.final.reqs.length).flatMap (·.msgs) := by
   intro r
-  obtain ⟨k, _, h⟩ := recvLoop_adv watch max (totalMsgs script + 2) none (start script req)
+  obtain ⟨k, _, h⟩ := recvLoop_adv watch max (totalMsgs script + 2) none (start assumedReach script req) (start_reach _ _)
   have hnil : r.final.cur = [] := by
-    apply recvLoop_cur_nil
+    apply recvLoop_cur_nil _ _ _ _ (start_reach _ _)
     cases script with
     | nil => simp [remaining, start, totalMsgs]
     | cons s rs => simp [remaining, start, totalMsgs]
@@ -34,25 +48,43 @@ theorem delivers_concat (watch : Bool) (max : Nat) (script : List (Stream μ)) (
   | nil => simp [start]
   | cons s rs => simp [start, List.take_succ_cons]
 
+/-- whatever the caller does (cancel after `n` messages or never), what it received is a prefix of
+the concatenation of the served streams' messages: nothing lost, duplicated or reordered -/
+theorem delivered_is_prefix (watch : Bool) (max : Nat) (ca : Option Nat) (script : List (Stream μ)) (req : ρ) :
+    let r := runStream assumedReach watch max ca false script req
+    r.delivered <+: (script.take r.final.reqs.length).flatMap (·.msgs) := by
+  intro r
+  obtain ⟨k, _, h⟩ := recvLoop_adv watch max (totalMsgs script + 2) ca (start assumedReach script req) (start_reach _ _)
+  have hm := h.msgs
+  have hr := h.reqs
+  change r.delivered ++ r.final.cur = _ at hm
+  change r.final.reqs = _ at hr
+  have : (script.take r.final.reqs.length).flatMap (·.msgs) = r.delivered ++ r.final.cur := by
+    rw [hm, hr]
+    cases script with
+    | nil => simp [start]
+    | cons s rs => simp [start, List.take_succ_cons]
+  rw [this]; exact List.prefix_append _ _
+
 /-- `requests_seen`: every request that reached the server is the original request; their number is
 1 + the number of re-opened streams. -/
 theorem requests_seen (watch : Bool) (max : Nat) (ca : Option Nat) (script : List (Stream μ)) (req : ρ) :
-    ∃ k, (runStream watch max ca script req).final.reqs = List.replicate (k + 1) req := by
-  obtain ⟨k, _, h⟩ := recvLoop_adv watch max (totalMsgs script + 2) ca (start script req)
+    ∃ k, (runStream assumedReach watch max ca false script req).final.reqs = List.replicate (k + 1) req := by
+  obtain ⟨k, _, h⟩ := recvLoop_adv watch max (totalMsgs script + 2) ca (start assumedReach script req) (start_reach _ _)
   refine ⟨k, ?_⟩
   have hr := h.reqs
-  change (runStream watch max ca script req).final.reqs = _ at hr
+  change (runStream assumedReach watch max ca false script req).final.reqs = _ at hr
   rw [hr]
   cases script <;> simp [start, List.replicate_succ]
 
 /-- one `RecvMsg` re-opens at most `max + 1` streams, and gives up (returns the break's error) only
 after exactly `max + 1` re-opened streams delivered nothing -/
-theorem reopen_budget (max : Nat) (c : Cli μ ρ) :
+theorem reopen_budget (max : Nat) (c : Cli μ ρ) (hreach : c.reach = false) :
     match recvMsg true max false c with
     | .msg _ c' => c'.reqs.length ≤ c.reqs.length + (max + 1)
     | .fail e c' => e ≠ .blocked → c'.reqs.length = c.reqs.length + (max + 1) ∧
         ((c.rest.take (max + 1)).flatMap (·.msgs)) = [] := by
-  have h := recvMsg_adv true max false c
+  have h := recvMsg_adv true max false c hreach
   cases hr : recvMsg true max false c with
   | msg m c' =>
     rw [hr] at h
@@ -71,28 +103,111 @@ theorem reopen_budget (max : Nat) (c : Cli μ ρ) :
     · have : c.cur ++ (c.rest.take (max + 1)).flatMap (·.msgs) = [] := by simpa using hm.symm
       exact (List.append_eq_nil_iff.mp this).2
 
-/-- `cancelled_never_retried` (one call): once the caller's context is cancelled, `RecvMsg` fails
-and no further request reaches the server -/
-theorem cancelled_never_retried (watch : Bool) (max : Nat) (c : Cli μ ρ) :
+/-- `run_budget` — `reopen_budget` lifted to whole runs (any cancellation plan): among the streams
+a run re-opens there are never more than `max + 1` consecutive ones without a message, and a run
+that ends with the stream's own error (EOF / status error — i.e. not blocked, not cancelled) gave up
+only after exactly `max + 1` message-less re-opens in a row. -/
+theorem run_budget (max : Nat) (ca : Option Nat) (script : List (Stream μ)) (req : ρ) :
+    let r := runStream assumedReach true max ca false script req
+    let reopened := openedFrom script.tail (r.final.reqs.length - 1)
+    segOk max 0 reopened = true ∧ ((r.err = .eof ∨ r.err = .unavailable) → cnt 0 reopened = max + 1) := by
+  intro r reopened
+  obtain ⟨k, h1, h2, h3⟩ := recvLoop_seg true max (totalMsgs script + 2) ca (start assumedReach script req) (start_reach _ _)
+  have hk : r.final.reqs.length - 1 = k := by
+    change (recvLoop true max ca (totalMsgs script + 2) (start assumedReach script req)).final.reqs.length - 1 = k
+    rw [h1, start_reqs]; simp
+  rw [start_rest] at h2 h3
+  show segOk max 0 (openedFrom script.tail (r.final.reqs.length - 1)) = true ∧
+    (_ → cnt 0 (openedFrom script.tail (r.final.reqs.length - 1)) = max + 1)
+  rw [hk]
+  exact ⟨h2, fun he => h3 he rfl⟩
+
+/-- `cancelled_never_retried` (one call), DERIVED from the transport assumption `reach = false`: the
+model does enter the retry loop as the Go code does (`recvCancelled`), its single operation opens a
+stream under the cancelled context, and because that stream never reaches the handler the server
+log is unchanged and the call fails -/
+theorem cancelled_never_retried (watch : Bool) (max : Nat) (c : Cli μ ρ) (hreach : c.reach = false) :
     ∃ e, recvMsg watch max true c = .fail e c :=
-  ⟨_, recvMsg_cancelled watch max c⟩
+  ⟨_, recvMsg_cancelled watch max c hreach⟩
+
+/-- the assumption is necessary: on a transport where such a stream did reach the handler, the watch
+interceptor WOULD make the server see one more request after the cancellation -/
+theorem cancelled_retry_reaches_server_without_assumption (max : Nat) (c : Cli μ ρ) (hreach : c.reach = true) :
+    recvMsg true max true c = .fail .ctxCanceled { c with reqs := c.reqs ++ [c.sent] } := by
+  simp [recvMsg, recvCancelled, hreach]
 
 /-- `cancelled_never_retried` (whole run): cancelling after `n` messages delivers the first `n`
 messages of the uncancelled run, and the server has seen a prefix of what it would have seen -/
 theorem cancelled_run_is_prefix (watch : Bool) (max n : Nat) (script : List (Stream μ)) (req : ρ) :
-    (runStream watch max (some n) script req).delivered = ((runStream watch max none script req).delivered).take n ∧
-    (runStream watch max (some n) script req).final.reqs <+: (runStream watch max none script req).final.reqs :=
-  recvLoop_cancel_prefix watch max _ n _
+    (runStream assumedReach watch max (some n) false script req).delivered =
+      ((runStream assumedReach watch max none false script req).delivered).take n ∧
+    (runStream assumedReach watch max (some n) false script req).final.reqs <+:
+      (runStream assumedReach watch max none false script req).final.reqs :=
+  recvLoop_cancel_prefix watch max _ n _ (start_reach _ _)
+
+/-- cancellation while `Recv` is BLOCKED on a silent stream (the typical end of a watch): the run
+delivers what the blocked run had delivered, the server sees no further request, and the caller gets
+`context.Canceled` (watch) / the gRPC cancellation status (other streams) -/
+theorem blocked_cancel_never_retried (watch : Bool) (max : Nat) (script : List (Stream μ)) (req : ρ) :
+    let r := runStream assumedReach watch max none false script req
+    let r' := runStream assumedReach watch max none true script req
+    r'.delivered = r.delivered ∧ r'.final.reqs = r.final.reqs ∧
+    (r.err = .blocked → r'.err = (if watch then .ctxCanceled else .rpcCanceled)) ∧ (r.err ≠ .blocked → r'.err = r.err) := by
+  intro r r'
+  obtain ⟨k, _, h⟩ := recvLoop_adv watch max (totalMsgs script + 2) none (start assumedReach script req) (start_reach _ _)
+  have hfr : r.final.reach = false := by
+    change (recvLoop watch max none (totalMsgs script + 2) (start assumedReach script req)).final.reach = false
+    rw [h.reach]; exact start_reach _ _
+  have hr' : r' = cancelWhenBlocked watch r := rfl
+  rw [hr']
+  unfold cancelWhenBlocked
+  by_cases hb : r.err = .blocked
+  · simp [hb, recvCancelled_eq watch r.final hfr]
+  · simp [hb]
 
 /-- `non_watch_never_retried` (streams): a stream whose method is not in `RPCNeedRetry` is never
 re-opened, whatever the budget, the script and the caller do -/
 theorem non_watch_never_retried (max : Nat) (ca : Option Nat) (script : List (Stream μ)) (req : ρ) :
-    (runStream false max ca script req).final.reqs = [req] := by
-  obtain ⟨k, hk, h⟩ := recvLoop_adv false max (totalMsgs script + 2) ca (start script req)
+    (runStream assumedReach false max ca false script req).final.reqs = [req] := by
+  obtain ⟨k, hk, h⟩ := recvLoop_adv false max (totalMsgs script + 2) ca (start assumedReach script req) (start_reach _ _)
   have hr := h.reqs
-  change (runStream false max ca script req).final.reqs = _ at hr
+  change (runStream assumedReach false max ca false script req).final.reqs = _ at hr
   rw [hr, hk rfl]
   cases script <;> simp [start]
+
+/-- `stream_meets_spec`: the decidable specification the oracle evaluates on /repo's output
+(`specStream`: request re-sent, messages = concatenation, budget never exceeded, gave up only after
+the budget, non-watch never re-opened) holds of the model for every script, budget and request, for
+runs that end with the stream's own error (uncancelled, not left blocked on a hanging script). -/
+theorem stream_meets_spec [DecidableEq μ] [DecidableEq ρ] (watch : Bool) (max : Nat) (script : List (Stream μ)) (req : ρ)
+    (hend : (runStream assumedReach watch max none false script req).err = .eof ∨
+            (runStream assumedReach watch max none false script req).err = .unavailable) :
+    let r := runStream assumedReach watch max none false script req
+    specStream watch max none false script req r.delivered r.final.reqs r.final.reqs.length = [] := by
+  intro r
+  obtain ⟨k, hk⟩ := requests_seen watch max none script req
+  have hd := delivers_concat watch max script req
+  have hreq : r.final.reqs = List.replicate (k + 1) req := hk
+  have hdel : r.delivered = (openedFrom script r.final.reqs.length).flatMap (·.msgs) := by
+    rw [flatMap_openedFrom]; exact hd
+  unfold specStream
+  simp only [Option.filter_none, Option.isSome_none, Bool.or_false, Bool.false_and, Bool.not_false, Bool.true_and]
+  have h1 : (r.final.reqs.all (· == req)) = true := by rw [hreq]; simp
+  have h2 : r.final.reqs.length ≥ 1 := by rw [hreq]; simp
+  have h3 : (r.delivered == (openedFrom script r.final.reqs.length).flatMap (·.msgs)) = true := by rw [← hdel]; simp
+  cases watch with
+  | true =>
+    obtain ⟨b1, b2⟩ := run_budget max none script req
+    have b2' := b2 hend
+    simp [h1, h2, h3]
+    exact ⟨b1, b2'⟩
+  | false =>
+    have := non_watch_never_retried max none script req
+    have h4 : r.final.reqs.length = 1 := by
+      change (runStream assumedReach false max none false script req).final.reqs.length = 1
+      rw [this]; rfl
+    simp [h1, h2, h3, h4]
+    rw [hdel, h4]
 
 /-- unary calls: between 1 and `max + 1` attempts, stopping at the first success … -/
 theorem unary_attempts (max : Nat) (outs : List Bool) :
@@ -119,9 +234,9 @@ theorem unary_meets_spec (max : Nat) (outs : List Bool) :
   simp [h1, h2, h.2.2]
 
 -- hypotheses are satisfiable / statements are not vacuous: a concrete run
-example : (runStream true 1 none
+example : (runStream false true 1 none false
     [⟨["a", "b"], .err⟩, ⟨[], .err⟩, ⟨["c"], .eof⟩, ⟨[], .eof⟩, ⟨[], .err⟩, ⟨["never"], .eof⟩] "req").delivered = ["a", "b", "c"] := by decide
-example : (runStream true 1 none
+example : (runStream false true 1 none false
     [⟨["a", "b"], .err⟩, ⟨[], .err⟩, ⟨["c"], .eof⟩, ⟨[], .eof⟩, ⟨[], .err⟩, ⟨["never"], .eof⟩] "req").final.reqs.length = 5 := by decide
 
 end Eru.Props.C36
